@@ -1,10 +1,11 @@
 """C13 - a move chain is a faithful, reversible record of the game."""
-from . import chainrules
+from . import chainrules, witness
 
 
 def run(ctx):
     facts = ctx.facts("dev")
     ctx.decided += [
+        'L5 MoveChain::push_unchecked cannot be called from safe code (E4 witness)',
         "L1 for every instantiated push<M>: on the path where make_raw succeeds exactly one (move, undo) pair - the one make_raw returned - "
         "is pushed on the stack and one repetition entry keyed by the new position's hash is added; on every refused path nothing is "
         "recorded and no field is stored",
@@ -19,3 +20,5 @@ def run(ctx):
     chainrules.pop_rule(ctx, facts, "L2")
     chainrules.writers_rule(ctx, facts, "L3")
     chainrules.eq_rule(ctx, facts, "L4")
+    witness.cf_rule(ctx, 'L5', ('cf/C13/',),
+                    'the unchecked push of the chain is callable only inside `unsafe` (compile-fail witness E0133 with compiling twin)')
